@@ -33,6 +33,14 @@ CLAIMED = {
              'covered as orders of critical sections (the lock-discipline assertion is checked on every path). The class of doc blocks '
              'containing an empty line is a listed known finding; everything outside it must hold.',
         ref='DESIGN.md 4 (C05)'),
+    'C16': dict(
+        text='Claimed for the solver-reachable kernels of the statement: (1) no panic path exists in the real Inflection methods and '
+             'raw_name_to_ts_field for any identifier/name within the length bound (ASCII + non-ASCII sample); (2) for each of the four '
+             'attribute kinds, with every Option/bool of the record and the item shape symbolic, assert_validity rejects every '
+             'combination of the frozen incompatibility table and nothing else, never panics; (3) EnumAttr::tagged() succeeds whenever '
+             'assert_validity did (the expect() in from_variant is unreachable); Optional::or and unit::check_attributes are total and '
+             'correct. Not claimed: that accepted expansions compile (needs rustc in the loop).',
+        ref='DESIGN.md 4 (C16)'),
 }
 
 NOT_APPLICABLE = {
